@@ -119,6 +119,25 @@ def check_C03(A: Analysis, tier):
                 rc.fail(Q("tag_object"), l, f"{l} can no longer leave tag_object: the documented already-exists error is lost")
     rules += [rb, rc]
 
+    re_ = Rule("C03", "C03.e", "the tagging roll-back never runs on a path where the pid reference file was found "
+               "present by the four-way split (it may only undo what this call wrote)", floor=1)
+    for m in ALL_MODES:
+        for e in ("tag_object", "store_object"):
+            it = A.api(e, m)
+            for c in it.calls:
+                if c["callee"] != Q("_untag_object"):
+                    continue
+                re_.ob()
+                re_.inst(f"{c['func'].qual}:{c['node'].lineno} roll-back call [{e}/{m}]")
+                facts = c["state"].facts
+                tagging = (Q("_store_hashstore_refs_files"), Q("_write_refs_file"), Q("_update_refs_file"))
+                atoms = [a for a in probe_atoms(facts, "isfile", "PIDREFS") if not any(u[0] in tagging for u in a[3])]
+                if any(F.implied(facts, a) is True for a in atoms):
+                    re_.fail(c["func"], c["node"], "the roll-back is reachable on a path where the pid reference file already existed when "
+                             "tagging began: an error while *rejecting* a re-tag would delete the existing binding",
+                             A.p.loc(c["func"], c["node"]))
+    rules.append(re_)
+
     rd = Rule("C03", "C03.d", "a pid reference file is renamed away / removed only from delete_object and the "
               "tagging roll-back", floor=2)
     for it, ev in all_events(A, PUBLIC_API, ALL_MODES):
@@ -228,6 +247,11 @@ def check_C04(A: Analysis, tier):
                                     "metadata operations must not touch objects or references", site_loc(A, ev))
     rules.append(rd)
 
+    re4 = Rule("C04", "C04.e", "membership in / removal from a cid list compares the pid with the stripped whole line "
+               "(a pid is counted as referencing the object exactly when its own line is there)", floor=2)
+    whole_line_rule(A, re4)
+    rules.append(re4)
+
     rf = Rule("C04", "C04.f", "delete_object's main branch renames the cid list and the object for deletion under "
               "the emptiness guard and hands both markers to _delete_marked_files", floor=2)
     for m in ALL_MODES:
@@ -297,6 +321,13 @@ def check_C05(A: Analysis, tier):
             for t in sorted(st.tmps, key=repr):
                 re_.fail(it.entry, f"temp file in {show(t[1])}", f"a temp file created in {show(t[1])} can survive a successful "
                          f"{it.entry.split('.')[-1]}: neither renamed into place nor removed on some normal path")
+        for kind, label, st, _ in it.exits:
+            if kind == "raise" and label in REJECT:
+                re_.ob()
+                for t in sorted(st.tmps, key=repr):
+                    if classify(t).key == C("refs"):
+                        re_.fail(it.entry, f"temp file in {show(t[1])} on {label}", f"a rejected tagging ({label}) of {it.entry.split('.')[-1]} "
+                                 f"leaves a temp file in {show(t[1])}")
     rules += [rb, re_]
 
     rc = Rule("C05", "C05.c", "after every remove-update of a cid reference list the same call tests the list for "
@@ -532,6 +563,20 @@ def check_C10(A: Analysis, tier):
         if f.detail.get("handling") and f.detail.get("entry") == Q("delete_object"):
             rd.fail(f.func, f.construct, f.message, f.loc, f.detail)
     rules.append(rd)
+
+    rf = Rule("C10", "C10.f", "an in-place rewrite of a cid list shrinks the file (truncate) only after the new content "
+              "was written: a death in between leaves the other pids listed", floor=1)
+    for m in ALL_MODES:
+        for e in ("delete_object", "tag_object"):
+            it = A.api(e, m)
+            for ev in it.events:
+                if ev.kind == "WRITE" and ev.prim == "file.truncate" and resource_hits(ev, {"CIDREFS"}):
+                    rf.ob()
+                    rf.inst(f"{ev.func.qual}:{ev.line} truncate of the cid list")
+                    if not any(d[0] == "op" and d[1] in ("file.writelines", "file.write") and d[2] == ev.extra.get("handle") for d in ev.done if len(d) == 3):
+                        rf.fail(ev.func, ev.node, "the cid list is truncated before its new content is written: a process death between the two "
+                                "leaves the list empty and every other pid sharing the object loses its reference", A.p.loc(ev.func, ev.node))
+    rules.append(rf)
 
     re_ = Rule("C10", "C10.e", "adding a pid to an existing cid list is guarded by a negative membership test "
                "(re-tagging after a crash tolerates a pid already listed)", floor=1)
@@ -912,27 +957,49 @@ def whole_line_rule(A, rule):
     for fq in (Q("_is_string_in_refs_file"), Q("_update_refs_file")):
         f = A.p.func(fq)
         idp = f.node.args.args[0 if f.is_static else 1].arg if fq.endswith("_is_string_in_refs_file") else "ref_id"
+        # the identifier and every local computed from it (ref_line = ref_id + "\n", ...)
+        ids = {idp}
+        changed = True
+        while changed:
+            changed = False
+            for a in ast.walk(f.node):
+                if isinstance(a, ast.Assign) and len(a.targets) == 1 and isinstance(a.targets[0], ast.Name) \
+                        and a.targets[0].id not in ids and any(isinstance(x, ast.Name) and x.id in ids for x in ast.walk(a.value)) \
+                        and not any(isinstance(c, ast.Call) and norm(c.func).endswith("_is_string_in_refs_file") for c in ast.walk(a.value)):
+                    ids.add(a.targets[0].id)
+                    changed = True
+
+        def mentions(n):
+            return any(isinstance(x, ast.Name) and x.id in ids for x in ast.walk(n))
+
         found = 0
         for n in ast.walk(f.node):
-            if isinstance(n, ast.Compare) and any(isinstance(x, ast.Name) and x.id == idp for x in ast.walk(n)):
+            if isinstance(n, ast.Compare) and mentions(n) and not (isinstance(n.left, ast.Name) and n.left.id == "update_type"):
+                # comparisons that decide membership: the other side is file content
+                others = [x for x in [n.left] + n.comparators if not mentions(x)]
+                if not others or all(isinstance(o, ast.Constant) for o in others):
+                    continue
                 found += 1
                 rule.ob()
                 rule.inst(f"{fq}: `{norm(n)}`")
-                other = [x for x in [n.left] + n.comparators if not (isinstance(x, ast.Name) and x.id == idp)]
-                ok = len(n.ops) == 1 and isinstance(n.ops[0], (ast.Eq, ast.NotEq)) and len(other) == 1
+                idside = [x for x in [n.left] + n.comparators if mentions(x)]
+                ok = len(n.ops) == 1 and isinstance(n.ops[0], (ast.Eq, ast.NotEq)) and len(others) == 1 and len(idside) == 1 \
+                    and isinstance(idside[0], ast.Name) and idside[0].id == idp
                 if ok:
-                    o = other[0]
+                    o = others[0]
                     if isinstance(o, ast.Name):
-                        # one-step def-use: value = line.strip()
                         defs = [a.value for a in ast.walk(f.node) if isinstance(a, ast.Assign) and any(isinstance(t, ast.Name) and t.id == o.id for t in a.targets)]
                         o = defs[0] if len(defs) == 1 else o
                     ok = isinstance(o, ast.Call) and isinstance(o.func, ast.Attribute) and o.func.attr in ("strip", "rstrip") and not o.args
                 if not ok:
-                    rule.fail(f, n, "an identifier is matched against a reference-file line by something other than equality "
-                              "with the stripped whole line: a pid that is a prefix/substring of another would alias it", A.p.loc(f, n))
-            if isinstance(n, ast.Call) and isinstance(n.func, ast.Attribute) and n.func.attr in ("startswith", "endswith", "find", "index", "count") \
-                    and any(isinstance(x, ast.Name) and x.id == idp for x in ast.walk(n)):
+                    rule.fail(f, n, "an identifier is matched against reference-file content by something other than equality of the "
+                              "identifier with one stripped whole line: a pid that is a prefix/suffix/substring of another would alias it",
+                              A.p.loc(f, n))
+            if isinstance(n, ast.Call) and isinstance(n.func, ast.Attribute) and n.func.attr in ("startswith", "endswith", "find", "index", "count", "search", "match") \
+                    and mentions(n):
+                found += 1
                 rule.ob()
+                rule.inst(f"{fq}: `{norm(n)}`")
                 rule.fail(f, n, f"identifier matched with .{n.func.attr}() instead of whole-line equality", A.p.loc(f, n))
         if found == 0:
             rule.fail(f, "comparison with the identifier", f"{fq} no longer compares lines with the identifier (anchor lost)", A.p.loc(f, f.node))
